@@ -154,6 +154,9 @@ def check_decode_number(utils, sig, rep, tier):
     if not sig.sentinel_in_range():
         inr_z = z3.And(inr_z, xi != sig.sentinel)
     st, m = prove(z3.Not(rcz), dom + [inr_z], label="B3 in-range-accepted (rounding model) " + tag)
+    if st == "unknown":
+        # no answer within the default minute (a loaded machine): one more attempt with a generous limit before the exact query
+        st, m = prove(z3.Not(rcz), dom + [inr_z], label="B3 in-range-accepted (rounding model) " + tag, timeout_ms=300000)
     wit3 = None
     if st != "unsat":
         inr = z3.And(in_range_bv(sig, x), z3.Not(sent)) if not sig.sentinel_in_range() else in_range_bv(sig, x)
@@ -165,7 +168,7 @@ def check_decode_number(utils, sig, rep, tier):
             if z3.is_true(g):
                 st, wit3 = "sat", cand
         if st is None:
-            st, m = prove(z3.Not(rc), [inr], label="B3 in-range-accepted (exact) " + tag, timeout_ms=120000 if tier == "thorough" else 45000)
+            st, m = prove(z3.Not(rc), [inr], label="B3 in-range-accepted (exact) " + tag, timeout_ms=180000 if tier == "thorough" else 90000)
             wit3 = m.eval(x, True).as_long() if st == "sat" else None
     results.append(("in-range-rejected", st, wit3))
     # B2: value = raw*Resolution + Offset to within binary64 rounding   [rounding-error model]
